@@ -241,3 +241,9 @@ package nfa
 // PikeVM internals are out of reach (DESIGN 7.1): only the frame of SetLongest is stated (ASSUMED).
 //@ trusted func (*PikeVM).SetLongest
 //@   modifies p.*
+
+//@ uninterpreted spec func alwaysAnchored(n *NFA) bool
+//@ func (*NFA).IsAlwaysAnchored
+//@   props C07
+//@   requires n != nil
+//@   ensures result == (n.startAnchored == n.startUnanchored)
